@@ -103,8 +103,36 @@ def o20_3(tier):
             back = ctx.callm(c, "get_previous_vertex", nxt)
             ctx.ensure(ctx.get(back, "id") == j, "previous(next(v)) = v")
         return h
+    def mk_history(n, j, how):
+        def h(ctx):
+            # the walking sense follows the CURRENT area sign, also after the same object was navigated and measured before its
+            # geometry changed (mirrored in place / cycle stored the other way round)
+            xs, ys = _poly(ctx, n)
+            for a in range(n):
+                for b in range(a + 1, n):
+                    ctx.assume(ctx.Or(ctx.Not(ctx.close(xs[a], xs[b])), ctx.Not(ctx.close(ys[a], ys[b]))))
+            vs = mk_vertices(ctx, list(zip(xs, ys)))
+            c = mk_cell(ctx, 0, vs)
+            ctx.callm(c, "get_next_vertex", vs[j])
+            ctx.callm(c, "get_perimeter")
+            ctx.callm(c, "get_area_sign")
+            if how == "mirror":
+                for v, y in zip(vs, ys):
+                    ctx.set(v, "y", -y)
+                area, step = shoelace(xs, [-y for y in ys]), 1
+            else:
+                ctx.set(c, "vertices", list(reversed(vs)))
+                area, step = -shoelace(xs, ys), -1
+            nxt = ctx.callm(c, "get_next_vertex", vs[j])
+            prv = ctx.callm(c, "get_previous_vertex", vs[j])
+            nid, pid = ctx.get(nxt, "id"), ctx.get(prv, "id")
+            ctx.ensure(ctx.Implies(area > 0, ctx.And(nid == (j + step) % n, pid == (j - step) % n)), "positive current area: next is the following stored vertex")
+            ctx.ensure(ctx.Implies(area < 0, ctx.And(nid == (j - step) % n, pid == (j + step) % n)), "negative current area: next is the preceding stored vertex")
+        return h
     ns = [3, 4, 6] if tier == "quick" else [3, 4, 5, 6, 7, 8, 10]
-    return [(f"n={n},v={j}", mk(n, j)) for n in ns for j in sorted({0, n // 2, n - 1})]
+    out = [(f"n={n},v={j}", mk(n, j)) for n in ns for j in sorted({0, n // 2, n - 1})]
+    out += [(f"n=4,v=1,after-{how}-on-the-same-object", mk_history(4, 1, how)) for how in ("mirror", "reversal")]
+    return out
 
 
 @obligation("O20.4", ["C20", "C06"], UNITS[4:5], "get_perimeter() is the length of the closed cycle (either storage sense), of degree 1", tier="Pn")
